@@ -1266,6 +1266,21 @@ static void *free_proc (void *ctx)
   return 0;
 }
 
+typedef struct
+{
+  async_worker_t *w;
+  unsigned delay_us;
+} stopper_t;
+
+static void *stopper_thread (void *arg)
+{
+  stopper_t *s = (stopper_t *) arg;
+  if (s->delay_us)
+    usleep (s->delay_us);
+  async_worker_signal_stop (s->w);
+  return 0;
+}
+
 /* mt worker <n> <seed>: create / early timed join / stop / join / destroy at random moments of real threads */
 static void mt_worker (int n, uint64_t seed)
 {
@@ -1306,9 +1321,35 @@ static void mt_worker (int n, uint64_t seed)
               break;
             }
         }
+      if (rng_next (&seed) % 2 == 0)
+        {
+          /* the stop is signalled by ANOTHER thread while this one is already inside the timed join: the thread
+           * finishes DURING the join.  A join may come back false only because its time is up, i.e. after all of its
+           * ceil(t/10) sleeps (counted, not timed): false after fewer sleeps = it gave up although the state it polls
+           * had become STOPPED */
+          stopper_t sp = { w, (unsigned) (rng_next (&seed) % 3000) };
+          pthread_t st;
+          int sl = 0, t = 3000;
+          pthread_create (&st, 0, stopper_thread, &sp);
+          rc = bounded_join (w, t, &sl);
+          pthread_join (st, 0);
+          if (rc == 0 && sl < (t + POLL_MS - 1) / POLL_MS)
+            {
+              bad = 1, snprintf (why, sizeof why, "join-false-before-its-timeout sleeps=%d", sl);
+              break;
+            }
+          if (rc < 0)
+            {
+              bad = 1, snprintf (why, sizeof why, "join-during-stop overran");
+              break;
+            }
+        }
+      else
+        rc = 0;
       async_worker_signal_stop (w);
       /* the procedure polls the stop event every 0.2 ms; on a slow machine one timed join may expire before the
        * thread was scheduled: every join must come back, one of them (liveness bound) with true */
+      if (rc != 1)
       for (int tries = 0; tries < 30; tries++)
         if ((rc = bounded_join (w, 2000, 0)) != 0)
           break;
